@@ -130,13 +130,20 @@ func harness_C07_dmarc() {
 	}
 	var dkims []dk
 	var results []authres.Result
+	// lite: a reduced shape for the quick tier with two signatures (domains: exact,
+	// subdomain, unrelated; relaxed alignment; record found at the From domain)
+	lite := verifParam("lite", 0) == 1
+	doms := c07Domains
+	if lite {
+		doms = []string{c07Domains[0], c07Domains[1], c07Domains[5]}
+	}
 	for i := 0; i < ndkim; i++ {
-		d := nondetChoiceStr(fmt.Sprintf("dkimDomain%d", i), c07Domains...)
+		d := nondetChoiceStr(fmt.Sprintf("dkimDomain%d", i), doms...)
 		v := nondetChoiceStr(fmt.Sprintf("dkimValue%d", i), c07Values...)
 		dkims = append(dkims, dk{v, d})
 		results = append(results, &authres.DKIMResult{Value: authres.ResultValue(v), Domain: d})
 	}
-	spfDom := nondetChoiceStr("spfDomain", c07Domains...)
+	spfDom := nondetChoiceStr("spfDomain", doms...)
 	spfVal := nondetChoiceStr("spfValue", c07Values...)
 	useHelo := verifParam("helo", 2) == 1 || (verifParam("helo", 2) == 2 && nondetBool("spfHelo"))
 	spf := &authres.SPFResult{Value: authres.ResultValue(spfVal)}
@@ -156,6 +163,10 @@ func harness_C07_dmarc() {
 	// ---- published policy ----
 	adkim := nondetChoiceStr("adkim", "r", "s")
 	aspf := nondetChoiceStr("aspf", "r", "s")
+	if lite {
+		verifAssume(adkim == "r")
+		verifAssume(aspf == "r")
+	}
 	p := nondetChoiceStr("p", "none", "quarantine", "reject")
 	sp := nondetChoiceStr("sp", "", "none", "quarantine", "reject")
 	pct100 := verifParam("pct", 2) == 1 || (verifParam("pct", 2) == 2 && nondetBool("pct100"))
@@ -180,6 +191,9 @@ func harness_C07_dmarc() {
 	}
 	c07Cur = res
 	luFrom := nondetInt("lookupFrom", 0, luCount-1) // the resolver's switch forks when (and only when) queried
+	if lite {
+		verifAssume(luFrom == 0)
+	}
 	res.outcome["_dmarc."+fromDomain+"."] = luFrom
 	luOrg := luFrom
 	if f == 1 {
